@@ -341,37 +341,46 @@ deriving DecidableEq, Repr
 
 def keyOf (db meas : Name) : Name := db ++ [slash] ++ meas
 
+/-- AppendRawWithMeta: `envHeader[:1+2+len(db)]` of a `[envHeaderCap]byte` array -/
+def envPanics (cfg : Cfg) (db : Name) : Bool :=
+  cfg.wal && !envGuardsDbLen && decide (3 + db.length > envHeaderCap)
+
+/-- the buffer exists and was created with another signature -/
+def schemaChanged (old : List Batch) (b : Batch) : Bool :=
+  match old with
+  | [] => false
+  | h :: _ => !sameSig h b
+
+/-- `flushOnSchemaChangeLocked`: synchronous flush (request goroutine) when the signature differs -/
+def syncStage (s : St) (k : Name) (b : Batch) : Except Site St :=
+  if schemaChanged (bufGet s k) b then
+    match flushBatches (bufGet s k) with
+    | .error site => .error site
+    | .ok r => .ok (applyFlush (bufErase s k) k (bufGet s k) r)
+  else .ok s
+
+/-- append, count, size trigger: the extracted batches go to a flush WORKER (`.error` = process dies) -/
+def appendStage (cfg : Cfg) (s1 : St) (k : Name) (b : Batch) : Except Site (WOut × St) :=
+  let l := bufGet s1 k ++ [b]
+  let s2 : St := { s1 with appended := s1.appended + b.nrec }
+  if rowsOf l ≥ cfg.maxBuf then
+    match flushBatches l with
+    | .error site =>
+      if flushGoroutinesRecover then .ok (.ok, { (bufErase s2 k) with lost := s2.lost + rowsOf l }) else .error site
+    | .ok r => .ok (.ok, applyFlush (bufErase s2 k) k l r)
+  else .ok (.ok, bufSet s2 k l)
+
 /-- `writeColumnarInternal` / `writeTypedColumnarRaw` after the typing step. `.error site` = a flush
 WORKER goroutine panicked: the process is gone. -/
 def writeBatch (cfg : Cfg) (s : St) (db meas : Name) (b : Batch) : Except Site (WOut × St) :=
-  -- AppendRawWithMeta: envHeader[:1+2+len(db)] of a [envHeaderCap]byte array
-  if cfg.wal && !envGuardsDbLen && decide (3 + db.length > envHeaderCap) then .ok (.reqPanic .walEnvelope, s)
+  if envPanics cfg db then .ok (.reqPanic .walEnvelope, s)
   else
-  let k := keyOf db meas
-  let old := bufGet s k
-  -- flushOnSchemaChangeLocked: synchronous flush when the stored signature differs
-  let changed := match old with
-    | [] => false
-    | h :: _ => !sameSig h b
-  let sync : Except Site St :=
-    if changed then
-      match flushBatches old with
-      | .error site => .error site
-      | .ok r => .ok (applyFlush (bufErase s k) k old r)
-    else .ok s
-  match sync with
-  | .error site =>
-    -- request goroutine: the buffer entry was deleted before the merge, its rows are gone
-    .ok (.reqPanic site, { (bufErase s k) with lost := s.lost + rowsOf old })
-  | .ok s1 =>
-    let l := bufGet s1 k ++ [b]
-    let s1 := { s1 with appended := s1.appended + b.nrec }
-    if rowsOf l ≥ cfg.maxBuf then
-      -- extracted and handed to a flush worker
-      match flushBatches l with
-      | .error site => if flushGoroutinesRecover then .ok (.ok, { (bufErase s1 k) with lost := s1.lost + rowsOf l }) else .error site
-      | .ok r => .ok (.ok, applyFlush (bufErase s1 k) k l r)
-    else .ok (.ok, bufSet s1 k l)
+    match syncStage s (keyOf db meas) b with
+    | .error site =>
+      -- request goroutine: the buffer entry was deleted before the merge, its rows are gone
+      .ok (.reqPanic site,
+        { (bufErase s (keyOf db meas)) with lost := s.lost + rowsOf (bufGet s (keyOf db meas)) })
+    | .ok s1 => appendStage cfg s1 (keyOf db meas) b
 
 /-! ## requests -/
 
